@@ -109,7 +109,7 @@ Definition check_dedup (case : graph pv * observed) : bool :=
   topob (heap g) && agrees_upto_sink_order (deduplicate_nodes (same_payload pv_eqb) g) o.
 
 (* ------------------------------------------------------------------ split *)
-Inductive kfun := KHead | KConst (s : string) | KPay | KOuts | KName.
+Inductive kfun := KHead | KConst (s : string) | KPay | KOuts | KName | KLast | KLen.
 Definition pv_class (p : option pv) : string :=
   match p with None => "none" | Some (PInt _) => "int" | Some (PStr _) => "str" | Some _ => "seq" end.
 Definition kfun_apply (f : kfun) (nd : node pv) : string :=
@@ -119,6 +119,8 @@ Definition kfun_apply (f : kfun) (nd : node pv) : string :=
   | KPay => pv_class (npay nd)
   | KOuts => match nouts nd with [] => "sink" | [_] => "one" | _ => "many" end
   | KName => nname nd
+  | KLast => let n := nname nd in String.substring (String.length n - 1) 1 n
+  | KLen => if Nat.odd (String.length (nname nd)) then "1" else "0"
   end.
 
 Definition cut_eqb (a b : cutedge string) : bool :=
